@@ -120,8 +120,21 @@ void g_consume(g_world &W, Gen &g, vf::rng r, bool allow_sync, bool helper_resol
                 switch (style) {
                 case GS_NEXT: {
                     bool b;
-                    if constexpr (WithArg) b = g.next(arg); else b = g.next();
-                    if (b) item = g.value();
+                    if (r.chance(1, 3)) {
+                        // the object returned by next() is kept and asked again: the answer for THIS step is cached in it, asking twice
+                        // must neither step the generator again nor change the answer or the current value
+                        auto n = [&] { if constexpr (WithArg) return g.next(arg); else return g.next(); }();
+                        b = (bool)n;
+                        if (b) {
+                            item = g.value();
+                            bool b2 = (bool)n, b3 = !n;
+                            if (!b2 || b3) item = -777771;                 // "available" turned into "not available"
+                            else if (g.value() != item) item = -777772;   // the generator was stepped again without a new next()
+                        } else if ((bool)n) item = -777773;
+                    } else {
+                        if constexpr (WithArg) b = g.next(arg); else b = g.next();
+                        if (b) item = g.value();
+                    }
                     break;
                 }
                 case GS_ITER:
